@@ -134,11 +134,6 @@ func yamlTranslateNode(node *yaml.Node, active map[*yaml.Node]bool) (any, error)
 			return strconv.ParseInt(node.Value, 10, 64)
 
 		case "!!float":
-			v, err := strconv.ParseFloat(node.Value, 32)
-			if err == nil {
-				return v, nil
-			}
-
 			return strconv.ParseFloat(node.Value, 64)
 
 		case "!!null":
